@@ -1995,7 +1995,10 @@ class MP4AudioSampleEntry(Mp4Atom):
         r = FieldReader(clz.classname(), src, rv)
         r.get(6, 'reserved')  # (8)[6] reserved
         r.read('H', "data_reference_index")
-        r.get(16, 'reserved')  # reserved 8,2,2,4
+        r.get(8, 'reserved')  # reserved
+        r.read('H', "channel_count")
+        r.read('H', "sample_size")
+        r.get(4, 'reserved')  # pre_defined, reserved
         r.read('H', "timescale")
         r.get(2, 'reserved')  # (16) reserved
         # an ESDBox should follow on from this header
@@ -2006,8 +2009,8 @@ class MP4AudioSampleEntry(Mp4Atom):
         w.write(6, 'reserved', b'')
         w.write('H', 'data_reference_index')
         w.write(8, 'reserved_8', b'')
-        w.write('H', 'reserved_2', 2)
-        w.write('H', 'reserved_2', 16)
+        w.write('H', 'channel_count', getattr(self, 'channel_count', 2))
+        w.write('H', 'sample_size', getattr(self, 'sample_size', 16))
         w.write(4, 'reserved_4', b'')
         w.write('H', 'timescale')
         w.write(2, 'reserved', b'')
